@@ -359,6 +359,119 @@ func main() {
 	}
 	sort.Strings(pkgWrites)
 
+	// --- the chain's side (Model/PoolChain.lean): calls in source order and the comparisons that decide the fork choice
+	chainRelevant := map[string]bool{
+		"consensusVerify": true, "addBlockOnChain": true, "verifyBlock": true, "insertBlock": true, "removeFromCommonAncestor": true,
+		"remove": true, "updateTxPool": true, "transactionPool.MarkExecuted": true, "transactionPool.UnMarkExecuted": true,
+		"transactionPool.GetExecuted": true, "transactionPool.PackForCast": true, "HasBlockByHash": true, "hasPreBlock": true,
+		"queryBlockHeaderByHash": true, "QueryBlockHeaderByHeight": true, "queryBlockByHash": true, "chainPvGreatThanRemote": true,
+		"successOnChainCallBack": true, "futureBlocks.Add": true, "futureBlocks.Get": true, "verifiedBlocks.Contains": true, "verifiedBlocks.Add": true,
+		"common.IsProposal008": true, "common.IsProposal018": true, "common.IsProposal020": true, "common.IsProposal023": true,
+		"missTransaction": true, "checkStates": true, "saveStates": true, "updateLastBlock": true, "markAddBlock": true, "markRemoveBlock": true,
+		"hashDB.Delete": true, "heightDB.Delete": true, "saveBlockByHash": true, "saveBlockByHeight": true, "Cmp": true, "sort.Sort": true,
+		"runTransactions": true, "Execute": true, "append": true, "executor.GetTxExecutor": true, "BeforeExecute": true,
+	}
+	chainFuncs := map[string]map[string]bool{
+		"src/core/blockchain_add.go":    {"blockChain.consensusVerify": true, "blockChain.addBlockOnChain": true, "blockChain.insertBlock": true, "blockChain.updateTxPool": true, "blockChain.successOnChainCallBack": true, "blockChain.removeFromCommonAncestor": true},
+		"src/core/blockchain.go":        {"blockChain.AddBlockOnChain": true, "blockChain.remove": true, "blockChain.CastBlock": true, "blockChain.runTransactions": true},
+		"src/core/blockchain_verify.go": {"blockChain.verifyBlock": true},
+		"src/core/blockchain_sync.go":   {"chainPvGreatThanRemote": true},
+	}
+	type cfn struct {
+		name  string
+		calls []string
+		cmps  []string
+	}
+	var cfns []cfn
+	suffix := func(e ast.Expr) string {
+		p := selPath(e)
+		if len(p) > 2 {
+			p = p[len(p)-2:]
+		}
+		if len(p) >= 1 && len(p) == len(selPath(e)) && len(p) > 1 {
+			p = p[1:]
+		}
+		return strings.Join(p, ".")
+	}
+	interesting := func(x string) bool {
+		for _, k := range []string{"TotalQN", "PreHash", "Hash", "Height", "ProveValue", "compareValue", "hashBigCompareValue"} {
+			if strings.HasSuffix(x, k) {
+				return true
+			}
+		}
+		return false
+	}
+	var cfiles []string
+	for k := range chainFuncs {
+		cfiles = append(cfiles, k)
+	}
+	sort.Strings(cfiles)
+	for _, rel := range cfiles {
+		f, err := parser.ParseFile(fset, filepath.Join(repo, rel), nil, 0)
+		if err != nil {
+			fmt.Fprintln(os.Stderr, "parse:", err)
+			os.Exit(1)
+		}
+		imps := fileImports(f)
+		for _, d := range f.Decls {
+			fd, ok := d.(*ast.FuncDecl)
+			if !ok || fd.Body == nil || !chainFuncs[rel][funcName(fd)] {
+				continue
+			}
+			c := cfn{name: funcName(fd)}
+			ast.Inspect(fd.Body, func(n ast.Node) bool {
+				switch x := n.(type) {
+				case *ast.CallExpr:
+					cn := callName(x, imps)
+					if chainRelevant[cn] && cn != "append" {
+						c.calls = append(c.calls, cn)
+					}
+				case *ast.BinaryExpr:
+					switch x.Op {
+					case token.LSS, token.GTR, token.LEQ, token.GEQ, token.EQL, token.NEQ:
+						l, r := suffix(x.X), suffix(x.Y)
+						if bl, ok := x.Y.(*ast.BasicLit); ok {
+							r = bl.Value
+						}
+						if interesting(l) || interesting(r) {
+							c.cmps = append(c.cmps, l+" "+x.Op.String()+" "+r)
+						}
+					}
+				}
+				return true
+			})
+			cfns = append(cfns, c)
+		}
+	}
+	sort.Slice(cfns, func(i, j int) bool { return cfns[i].name < cfns[j].name })
+	// VMExecutor.Execute: which statements decide that a transaction gets a receipt (appends and continues in order)
+	var execShape []string
+	if f, err := parser.ParseFile(fset, filepath.Join(repo, "src/core/vmexecutor.go"), nil, 0); err == nil {
+		for _, d := range f.Decls {
+			fd, ok := d.(*ast.FuncDecl)
+			if !ok || fd.Body == nil || funcName(fd) != "VMExecutor.Execute" {
+				continue
+			}
+			ast.Inspect(fd.Body, func(n ast.Node) bool {
+				switch x := n.(type) {
+				case *ast.BranchStmt:
+					execShape = append(execShape, x.Tok.String())
+				case *ast.AssignStmt:
+					if len(x.Rhs) == 1 {
+						if c, ok := x.Rhs[0].(*ast.CallExpr); ok {
+							if id, ok := c.Fun.(*ast.Ident); ok && id.Name == "append" && len(x.Lhs) == 1 {
+								if l, ok := x.Lhs[0].(*ast.Ident); ok {
+									execShape = append(execShape, "append:"+l.Name)
+								}
+							}
+						}
+					}
+				}
+				return true
+			})
+		}
+	}
+
 	var sb strings.Builder
 	sb.WriteString("/- GENERATED by gen/cmd/c17facts from the go-rangers working tree; do not edit. -/\n")
 	sb.WriteString("namespace Rangers.Generated.PoolFacts\n\n")
@@ -409,6 +522,25 @@ func main() {
 	list("packageWrites", pkgWrites)
 	sb.WriteString("/-- store calls whose error result is dropped (function:call), in source order -/\n")
 	list("droppedErrors", dropped)
+	sb.WriteString("/-- the chain's side: per function the calls that reach the pool or decide the fork choice, and its comparisons -/\n")
+	sb.WriteString("def chainCalls : List (String × List String × List String) := [\n")
+	for i, f := range cfns {
+		qs := make([]string, len(f.calls))
+		for j, c := range f.calls {
+			qs[j] = q(c)
+		}
+		cs := make([]string, len(f.cmps))
+		for j, c := range f.cmps {
+			cs[j] = q(c)
+		}
+		sep := ","
+		if i == len(cfns)-1 {
+			sep = ""
+		}
+		sb.WriteString(fmt.Sprintf("  (%s, [%s], [%s])%s\n", q(f.name), strings.Join(qs, ", "), strings.Join(cs, ", "), sep))
+	}
+	sb.WriteString("]\n\n/-- VMExecutor.Execute: the appends and continue/break statements of its loop, in source order -/\n")
+	list("executeShape", execShape)
 	sb.WriteString("end Rangers.Generated.PoolFacts\n")
 	fmt.Print(sb.String())
 }
